@@ -80,6 +80,36 @@ K({
     ],
 })
 
+# --------------------------------------------------------------------------- K5
+INPLACE = "chalk-ir/src/fold/in_place.rs"
+K({
+    "id": "K5",
+    "title": "ir_in_place: fallible_map_vec / fallible_map_box / VecMappedInPlace (chalk-ir/src/fold/in_place.rs)",
+    "crate": "chalk-ir",
+    "complete": False,
+    "bound": {"quick": "vector length <= 3 (unwind 5); box: loop-free", "thorough": "vector length <= 6 (unwind 8)"},
+    "mods": [{"into": INPLACE, "harness": "chalk_ir/k5_in_place.rs", "name": "verif_k5"}],
+    "targets": [
+        {"file": INPLACE, "fn": "fallible_map_vec", "path": "fold::in_place::fallible_map_vec",
+         "clauses": ["Ok <=> no element failed; Ok: nothing dropped, out[i]==f(v[i]), result owns each element once",
+                     "Err: [0,k) dropped once as U, k dropped once by the folder, (k,len) dropped once as T",
+                     "all CBMC pointer/alloc/dealloc checks (no UAF, double free, OOB)"]},
+        {"file": INPLACE, "fn": "fallible_map_box", "path": "fold::in_place::fallible_map_box",
+         "clauses": ["Ok: value not dropped; Err: value dropped exactly once, storage freed"]},
+        {"file": INPLACE, "within": r"^impl<T, U> Drop for VecMappedInPlace<T, U>$", "fn": "drop", "path": "<VecMappedInPlace as Drop>::drop",
+         "clauses": ["pre: [0,m) hold U, slot m moved out, (m,len) hold T, m<len",
+                     "post: every slot != m dropped exactly once as its type, slot m untouched, buffer freed once"]},
+        {"file": INPLACE, "within": r"^impl<T, U> VecMappedInPlace<T, U>$", "fn": "new", "path": "VecMappedInPlace::new", "clauses": ["takes over ptr/len/cap, map_in_progress = 0"]},
+        {"file": INPLACE, "within": r"^impl<T, U> VecMappedInPlace<T, U>$", "fn": "finish", "path": "VecMappedInPlace::finish", "clauses": ["rebuilds the Vec<U> without dropping"]},
+    ],
+    "assumptions": [
+        "K5: unwinding after a panic in the folder runs the same drop glue (Drop for VecMappedInPlace / Box<MaybeUninit<U>>) as an early return; Kani itself aborts on panic, so the panic path is checked through the guard's contract (k5_guard_drop_*) and the Err path",
+        "K5: Vec::from_raw_parts / Box::from_raw / ptr::read / ptr::write as modelled by Kani's std",
+        "K5: memory leaks are checked through the drop counters (every element) and the guard's single from_raw_parts; CBMC's --memory-leak-check is not used",
+    ],
+    "trusted": ["alloc::vec / alloc::boxed as compiled by Kani"],
+})
+
 # --------------------------------------------------------------------------- V1
 V({
     "id": "V1",
